@@ -24,6 +24,7 @@ type Prog struct {
 	FnByKey map[string]*ssa.Function // pkgpath::key
 	tags    map[string]int
 	tagName map[int]string
+	ownCache map[string]string
 }
 
 func loadProg(repo string, patterns []string) *Prog {
